@@ -65,6 +65,12 @@ def g_stmt(s):
         return '(SPrim %d%%N %s %s)' % (s[1], p, g_expr(s[5]))
     if k == 'call':
         return '(SCall %d%%N [%s] %s)' % (s[1], '; '.join(g_expr(a) for a in s[2]), g_opt(s[3]))
+    if k == 'struct':
+        return '(SStruct %d%%N %d%%N [%s])' % (s[1], s[2], '; '.join(g_expr(a) for a in s[3]))
+    if k == 'ldecl':
+        return '(SLateDecl %d%%N)' % s[1]
+    if k == 'lassign':
+        return '(SLateAssign %d%%N %s)' % (s[1], g_expr(s[2]))
     if k == 'if':
         return '(SIf %s %s %s %s)' % (g_expr(s[1]), g_stmts(s[2]), g_stmts(s[3]), g_triples(s[4]))
     if k == 'sif':
@@ -153,7 +159,7 @@ def cse_program(r):
 
 
 def dump(progs):
-    jobs = [{'id': i, 'sources': p['sources'], 'entry': p['entry'], 'passes': FULL_CHAIN, 'rounds': ROUNDS} for i, p in enumerate(progs)]
+    jobs = [{'id': i, 'sources': p['sources'], 'entry': p['entry'], 'passes': FULL_CHAIN, 'rounds': ROUNDS, 'fragment': 2} for i, p in enumerate(progs)]
     chunks = [jobs[i::NCPU] for i in range(NCPU)]
 
     def run_chunk(c):
@@ -190,10 +196,12 @@ class MirGen:
     """Random well-formed (single-assignment, well-scoped) functions of the modelled fragment, in the
     mir-dump encoding with numeric names.  Conditions are 0/1-valued by construction."""
 
-    def __init__(self, rng, plant=False):
+    def __init__(self, rng, plant=False, ext=False):
         self.r = rng
         self.n = 0
         self.plant = plant          # put copies of one value statement into both branches of if-else statements
+        self.ext = ext              # StructInit statements and loads of their fields
+        self.structs = []
 
     def fresh(self):
         self.n += 1
@@ -217,6 +225,7 @@ class MirGen:
         r = self.r
         ints, bools = list(ints), list(bools)
         out = []
+        mark = len(self.structs)          # structs made in this block are not visible after it
         for _ in range(size):
             k = r.below(100)
             if k < 40:
@@ -248,6 +257,22 @@ class MirGen:
                 ints.append(x)
                 if kind == 'isptr':
                     bools.append(x)
+            elif k < 55 and self.ext:
+                x = self.fresh()
+                n = r.range(1, 3)
+                out.append(['struct', x, r.below(3), [self.operand(ints) for _ in range(n)]])
+                self.structs.append((x, n))         # a reference: not an operand of Binary statements
+                if r.chance(1, 3):
+                    out.append(['call', r.below(4), [['v', x]], None])
+                if r.chance(1, 2):                    # read a field back (forwarding of struct fields)
+                    y = self.fresh()
+                    out.append(['prim', y, 'idx', r.below(3), r.below(n), ['v', x]])
+                    ints.append(y)
+            elif k < 57 and self.ext and self.structs and r.chance(1, 2):
+                x, n = r.pick(self.structs)
+                y = self.fresh()
+                out.append(['prim', y, 'idx', r.below(3), r.below(n + 1), ['v', x]])
+                ints.append(y)
             elif k < 62:
                 ret = self.fresh() if r.chance(2, 3) else None
                 out.append(['call', r.below(4), [self.operand(ints) for _ in range(r.below(3))], ret])
@@ -303,6 +328,7 @@ class MirGen:
             elif in_loop and r.chance(1, 6):
                 out.append(['brk', self.operand(ints)])
                 break
+        del self.structs[mark:]
         return out, ints, bools
 
     def loop(self, ints, bools, depth):
@@ -351,7 +377,9 @@ def synthetic(tier, seed):
     rng = Rng(seed ^ 0x5EED)
     fs = [MirGen(rng.fork()).function() for _ in range(400 if tier == 'quick' else 4000)]
     rng2 = Rng(seed ^ 0xC5E5EED)
-    return fs + [MirGen(rng2.fork(), plant=True).function() for _ in range(150 if tier == 'quick' else 1500)]
+    fs += [MirGen(rng2.fork(), plant=True).function() for _ in range(150 if tier == 'quick' else 1500)]
+    rng3 = Rng(seed ^ 0x57C7)
+    return fs + [MirGen(rng3.fork(), plant=(i % 3 == 0), ext=True).function() for i in range(120 if tier == 'quick' else 1200)]
 
 
 def real_pass_batch(funcs, pass_name):
@@ -486,8 +514,8 @@ def deep(ck, tier, seed):
             continue
         for j, row in zip(shards[si], rows):
             pn, before, after, where, _sup = cases[j]
-            status, wf, unproved, escape, sem_ok, sem_bad, inv_bad = row      # `unproved` = Passes.dead_final_operands (ccp only)
-            st = stats.setdefault(pn + (':synthetic' if 'synthetic' in where else ''), {'cases': 0, 'agree': 0, 'declined': 0, 'wf': 0, 'proved_path': 0, 'dead_final_operands': 0, 'changed': 0, 'sem_ok': 0})
+            status, wf, unproved, escape, sem_ok, sem_bad, inv_bad, forwarded = row      # `unproved` = Passes.dead_final_operands
+            st = stats.setdefault(pn + (':synthetic' if 'synthetic' in where else ''), {'cases': 0, 'agree': 0, 'declined': 0, 'wf': 0, 'proved_path': 0, 'dead_final_operands': 0, 'struct_forwarding': 0, 'changed': 0, 'sem_ok': 0})
             st['cases'] += 1
             st['wf'] += wf
             st['sem_ok'] += sem_ok
@@ -496,10 +524,12 @@ def deep(ck, tier, seed):
             ck.case(['deep', pn, before], changed)
             if status == 0:
                 st['agree'] += 1
-                if wf and not unproved:
+                if wf and not unproved and not forwarded:
                     st['proved_path'] += 1
-                if wf and unproved:          # the named exclusion of Props.C02deep_ccp_preserves: counted, not a failure
+                if wf and unproved:          # the named exclusions of Props.C02deep_ccp_preserves: counted, not failures
                     st['dead_final_operands'] += 1
+                if wf and forwarded:
+                    st['struct_forwarding'] += 1
             elif status == 2:
                 st['declined'] += 1
             else:
@@ -525,8 +555,8 @@ def deep(ck, tier, seed):
     for pn, st in sorted(stats.items()):
         for k, v in st.items():
             ck.count('deep:%s:%s' % (pn, k), v)
-        print('C02deep: %-13s cases=%d model=real:%d declined:%d well-formed:%d under-theorem:%d excluded(dead_final_operands):%d pass-changed-something:%d sanity-runs-ok:%d'
-              % (pn, st['cases'], st['agree'], st['declined'], st['wf'], st['proved_path'], st['dead_final_operands'], st['changed'], st['sem_ok']))
+        print('C02deep: %-13s cases=%d model=real:%d declined:%d well-formed:%d under-theorem:%d excluded(dead_final_operands):%d excluded(struct_forwarding):%d pass-changed-something:%d sanity-runs-ok:%d'
+              % (pn, st['cases'], st['agree'], st['declined'], st['wf'], st['proved_path'], st['dead_final_operands'], st['struct_forwarding'], st['changed'], st['sem_ok']))
     ck.extra_cov['deep_tie'] = stats
     ck.obligation('C02deep tie ran', bool(stats), '%d cases' % len(cases))
     if cases:
